@@ -462,7 +462,19 @@ package regexp2
 //@     (code.FcPrefix != nil ==> ite(code.RightToLeft, p > 0 && syntax.Member(code.FcPrefix.PrefixSet, text[p-1]), p < len(text) && syntax.Member(code.FcPrefix.PrefixSet, text[p]))) &&
 //@     (code.FindOptimizations != nil && code.FindOptimizations.MinRequiredLength > 0 ==> ite(code.RightToLeft, p >= code.FindOptimizations.MinRequiredLength, len(text) - p >= code.FindOptimizations.MinRequiredLength))
 //@ spec func CodeFacts(code *syntax.Code) bool = (code.BmPrefix != nil ==> len(code.BmPrefix.pattern) > 0 && code.BmPrefix.rightToLeft == code.RightToLeft) &&
-//@     (code.FcPrefix != nil ==> syntax.SetOKv(code.FcPrefix.PrefixSet))
+//@     (code.FcPrefix != nil ==> syntax.SetOKv(code.FcPrefix.PrefixSet)) && (code.FindOptimizations != nil ==> OptFacts(code.FindOptimizations) && (code.RightToLeft ==> !HandledMode(code.FindOptimizations.FindMode)))
+// the modes findFirstCharOptimized handles are left-to-right modes: the analyzers never publish them for a right-to-left program
+//@ spec func HandledMode(m syntax.FindNextStartingPositionMode) bool = m == syntax.TrailingAnchor_FixedLength_LeftToRight_End || m == syntax.LeadingString_LeftToRight ||
+//@     m == syntax.LeadingString_OrdinalIgnoreCase_LeftToRight || m == syntax.LeadingStrings_LeftToRight || m == syntax.LeadingStrings_OrdinalIgnoreCase_LeftToRight ||
+//@     m == syntax.LeadingSet_LeftToRight || m == syntax.FixedDistanceSets_LeftToRight || m == syntax.FixedDistanceChar_LeftToRight || m == syntax.FixedDistanceString_LeftToRight ||
+//@     m == syntax.LiteralAfterLoop_LeftToRight || m == syntax.RequiredLandmarkChain_LeftToRight
+// well-formedness of the data the FindMode-specific finders are handed (what the analyzers publish; assumed with the other facts)
+//@ spec func OptFacts(fo *syntax.FindOptimizations) bool = fo.FixedDistanceLiteral.Distance >= 0 && fo.MinRequiredLength >= 0 &&
+//@     (forall k int :: 0 <= k && k < len(fo.FixedDistanceSets) ==> FDSetOK(fo.FixedDistanceSets[k])) && (len(fo.FixedDistanceSets) > 0 ==> 0 <= fo.FixedDistanceSets[0].Distance) &&
+//@     (forall k int :: 0 <= k && k < len(fo.LeadingPrefixesRunes) ==> len(fo.LeadingPrefixesRunes[k]) > 0) &&
+//@     (len(fo.LeadingPrefixFirstRunes) > 0 ==> forall k int :: 0 <= k && k < len(fo.LeadingPrefixesRunes) ==> helpers.InRunes(fo.LeadingPrefixFirstRunes, fo.LeadingPrefixesRunes[k][0])) &&
+//@     (fo.LiteralAfterLoop != nil && fo.LiteralAfterLoop.LoopNode != nil && fo.LiteralAfterLoop.LoopNode.Set != nil ==> syntax.SetOK(fo.LiteralAfterLoop.LoopNode.Set)) &&
+//@     ChainOK(fo.LandmarkChain)
 // candidate finders selected by FindOptimizations.FindMode only skip positions without a match (decided per finder)
 //@ ghost func FactOptimized(code *syntax.Code, text []rune, origin int) bool
 //@ spec func FinderFacts(code *syntax.Code, text []rune, origin int) bool = CodeFacts(code) && FactOptimized(code, text, origin) &&
@@ -486,10 +498,23 @@ package regexp2
 //@ func shouldUseFindFirstCharOptimized(r *Runner) (b bool)
 //@   props C03
 //@   requires r != nil
+// no position from `from` up to the finder's result was skipped although an attempt there would succeed
+//@ spec func NoSkip(r *Runner, from int, found bool) bool = forall p int :: from <= p && (p < r.Runtextpos || (!found && p == r.Runtextpos)) ==> !Att(r.code, r.Runtext, r.Runtextstart, p)
+// The dispatcher is verified; what stays assumed is stated per finder (callensure): that the text-level result of the
+// finder ("no occurrence before this position", proved in the finder's own contract) means that no successful attempt was
+// skipped - this is the meaning of the fact the analyzer published for that mode (C04; the analyzers are not verified).
 //@ func findFirstCharOptimized(r *Runner) (handled bool, found bool)
-//@   trusted the dispatch itself: it is assumed to pass each finder the facts the analyzers publish and to turn the finder's text-level result ("no occurrence before this position") into "no successful attempt before it". The finders it calls are under contract (see the end of this file) except findLeadingStringsLeftToRight.
+//@   props C03 C10
 //@   requires r != nil && r.code != nil && 0 <= r.Runtextpos && r.Runtextpos <= len(r.Runtext) && r.Runtextend == len(r.Runtext)
 //@   requires FinderFacts(r.code, r.Runtext, r.Runtextstart)
+//@   callensure findTrailingFixedLengthEnd: NoSkip(r, old(r.Runtextpos), b)
+//@   callensure findLeadingStringLeftToRight: NoSkip(r, old(r.Runtextpos), b)
+//@   callensure findLeadingStringsLeftToRight: NoSkip(r, old(r.Runtextpos), b)
+//@   callensure findFixedDistanceSetsLeftToRight: NoSkip(r, old(r.Runtextpos), b)
+//@   callensure findFixedDistanceCharLeftToRight: NoSkip(r, old(r.Runtextpos), b)
+//@   callensure findFixedDistanceStringLeftToRight: NoSkip(r, old(r.Runtextpos), b)
+//@   callensure findLiteralAfterLoopLeftToRight: NoSkip(r, old(r.Runtextpos), b)
+//@   callensure findRequiredLandmarkChainLeftToRight: NoSkip(r, old(r.Runtextpos), b)
 //@   modifies r.Runtextpos
 //@   ensures !handled ==> r.Runtextpos == old(r.Runtextpos)
 //@   ensures handled && !r.code.RightToLeft ==> old(r.Runtextpos) <= r.Runtextpos && r.Runtextpos <= len(r.Runtext) &&
@@ -1096,6 +1121,7 @@ package regexp2
 //@   modifies r.Runtextpos
 //@   ensures[hit]  b ==> old(r.Runtextpos) <= r.Runtextpos && r.Runtextpos <= Latest(r)
 //@   ensures[miss] !b && chain != nil && chain.LeadingLoopSet != nil && len(chain.Landmarks) > 0 ==> r.Runtextpos == r.Runtextend
+//@   ensures[none] (chain == nil || chain.LeadingLoopSet == nil || len(chain.Landmarks) <= 0) ==> !b && r.Runtextpos == old(r.Runtextpos)
 //@   loop 0:
 //@     invariant RunnerText(r) && r.Runtextpos == old(r.Runtextpos) && r.Runtextpos <= searchStart && chain != nil && chain.LeadingLoopSet != nil && len(chain.Landmarks) > 0
 //@     decreases len(r.Runtext) - searchStart + 1
